@@ -8,7 +8,8 @@ From Coq Require Import List NArith.
 From Delb.Base Require Import PyStr.
 From Delb.Tree Require Import ATree Encode.
 From Delb.XPath Require Import XBase Tok Ast AstEnc Parse.
-From Delb.Gen Require Import GenXPath.
+From Delb.XPath Require Import TTree.
+From Delb.Gen Require Import GenXPath GenXPathFns.
 Import ListNotations.
 
 Definition enc_outcome (s : str) (o : outcome) : list N :=
